@@ -12,6 +12,7 @@ CONSTANT OpSet = {"Get", "GetActive", "Put", "Upsert", "Remove", "Peek", "Inval"
 CONSTANT FreePut = TRUE
 CONSTANT MaxOps = 1000000
 CONSTANT MaxSteps = 1000000
+CONSTANT SplitLoad = TRUE
 CONSTANT MaxUpd = 1000000
 CONSTANT Pool = 12
 CONSTANT SeqPrefix = 1000000
